@@ -180,6 +180,9 @@ class Walker:
         for p_, a in zip(f["params"], args):
             if "d" in p_:
                 self.env[p_["d"]] = a
+                # a by-value parameter of an inlined helper is a local initialised with the argument
+                if not (p_.get("t") or {}).get("ref"):
+                    self.h.decl({"d": p_["d"], "n": p_.get("n"), "t": p_.get("t"), "init": a, "param": True})
         self.walk(f["body"], depth + 1)
 
     def expr_stmt(self, e, depth):
@@ -206,6 +209,16 @@ class Walker:
         if k == "bin" and e.get("op") in ("=", "+=", "-=", "*="):
             l = strip(e["l"])
             self.scan_calls(e["r"], depth)
+            if isinstance(l, dict) and l.get("k") == "un" and l.get("op") == "*":
+                # `*out = v` where the out-parameter was bound to `&local` by an inlined helper call: an assignment to that local
+                p_ = strip(l["e"])
+                for _ in range(4):
+                    if isinstance(p_, dict) and p_.get("k") == "ref" and p_.get("d") in self.env:
+                        p_ = strip(self.env[p_["d"]])
+                    else:
+                        break
+                if isinstance(p_, dict) and p_.get("k") == "un" and p_.get("op") == "&" and strip(p_["e"]).get("k") == "ref":
+                    l = dict(strip(p_["e"]), dk="local")
             if isinstance(l, dict) and l.get("k") == "ref" and l.get("dk") == "local":
                 d_ = l["d"]
                 if e["op"] == "=":
